@@ -40,6 +40,80 @@ func runC14(c *Check) {
 	c.Doc("C14-R3", "GA+CS: monotone height.")
 	c.Doc("C14-R4", "CS+VP: reader/writer codec agreement per key kind.")
 
+	// ---- key constructors: package-level functions of the store package returning a key string
+	// whose first path element is a string constant. A constructor is identified by that
+	// constant's value (the on-disk record kind); the labels are the names on the pinned tree.
+	kindLabel := map[string]string{"\"h\"": "getHeaderKey", "\"d\"": "getDataKey", "\"c\"": "getSignatureKey", "\"s\"": "getStateKey", "\"m\"": "getMetaKey", "\"i\"": "getIndexKey", "\"t\"": "getHeightKey"}
+	type ctorInfo struct {
+		fn     *ssa.Function
+		first  string
+		suffix *Term
+	}
+	ctors := map[*ssa.Function]*ctorInfo{}
+	ctorByLabel := map[string]*ctorInfo{}
+	for _, fn := range p.Funcs {
+		pk := fnPkg(fn)
+		if pk == nil || pk.Pkg.Path() != storePkg || fn.Parent() != nil || fn.Signature.Recv() != nil || fn.Blocks == nil {
+			continue
+		}
+		if res := fn.Signature.Results(); res.Len() != 1 || res.At(0).Type().String() != "string" {
+			continue
+		}
+		ci := &ctorInfo{fn: fn}
+		ctx := &Ctx{Fn: fn}
+		for _, b := range fn.Blocks {
+			for _, in := range b.Instrs {
+				switch x := in.(type) {
+				case *ssa.Alloc:
+					st := litStores(x)
+					if v := st["[0]"]; len(v) == 1 {
+						if k, ok := v[0].(*ssa.Const); ok && k.Value != nil && k.Value.Kind() == constant.String {
+							ci.first = fmt.Sprintf("%q", constant.StringVal(k.Value))
+						}
+					}
+					if v := st["[1]"]; len(v) == 1 {
+						ci.suffix = TermOf(v[0], ctx)
+					}
+				case *ssa.Return:
+					if len(x.Results) == 1 {
+						if k, ok := x.Results[0].(*ssa.Const); ok && k.Value != nil && k.Value.Kind() == constant.String {
+							ci.first = fmt.Sprintf("%q", constant.StringVal(k.Value))
+						}
+					}
+				}
+			}
+		}
+		if ci.first == "" {
+			continue
+		}
+		ctors[fn] = ci
+		if l, ok := kindLabel[ci.first]; ok {
+			if ctorByLabel[l] == nil {
+				ctorByLabel[l] = ci
+			} else {
+				c.Bad("C14-R2", "ctor ⟂ "+l+" ⟂ unique", fnName(fn), p.Pos(fn.Pos()), "two key constructors build keys of the same kind "+ci.first+": "+fnShort(ctorByLabel[l].fn)+" and "+fnShort(fn), nil)
+			}
+		}
+	}
+	// ctorOf: the label of the key constructor a term is a call of ("" if none)
+	ctorOf := func(t *Term) string {
+		if t.Op != "call" {
+			return ""
+		}
+		cv, ok := t.V.(*ssa.Call)
+		if !ok || cv.Common().StaticCallee() == nil {
+			return ""
+		}
+		ci := ctors[cv.Common().StaticCallee()]
+		if ci == nil {
+			return ""
+		}
+		if l, ok := kindLabel[ci.first]; ok {
+			return l
+		}
+		return "key-kind " + ci.first
+	}
+
 	// ---- collect datastore operations of the store package
 	var ops []dsOp
 	for _, fn := range p.Funcs {
@@ -61,8 +135,8 @@ func runC14(c *Check) {
 			op.direct = recv != nil && recv.Op == "field" && recv.Name == "db"
 			op.key = ArgTerm(n, 1)
 			op.key.Walk(func(t *Term) bool {
-				if t.Op == "call" && strings.HasPrefix(t.Name, "pkg/store.get") && strings.HasSuffix(t.Name, "Key") {
-					op.ctor = strings.TrimPrefix(t.Name, "pkg/store.")
+				if l := ctorOf(t); l != "" {
+					op.ctor = l
 				}
 				return true
 			})
@@ -104,8 +178,8 @@ func runC14(c *Check) {
 		kinds := map[string]bool{}
 		for _, n := range puts {
 			ArgTerm(n, 1).Walk(func(t *Term) bool {
-				if t.Op == "call" && strings.HasPrefix(t.Name, "pkg/store.get") {
-					kinds[strings.TrimPrefix(t.Name, "pkg/store.")] = true
+				if l := ctorOf(t); l != "" {
+					kinds[l] = true
 				}
 				return true
 			})
@@ -132,7 +206,7 @@ func runC14(c *Check) {
 			hts := map[string]bool{}
 			for _, pn := range puts {
 				ArgTerm(pn, 1).Walk(func(t *Term) bool {
-					if t.Op == "call" && strings.HasPrefix(t.Name, "pkg/store.get") && len(t.Args) == 1 {
+					if ctorOf(t) != "" && len(t.Args) == 1 {
 						hts[t.Args[0].String()] = true
 					}
 					return true
@@ -149,17 +223,13 @@ func runC14(c *Check) {
 	}
 	c.MinInstances("C14-R1", 8)
 
-	// ---- R2: constants
-	tp := p.TypesPkg(storePkg)
+	// ---- R2: the prefixes the key constructors use are pairwise distinct
 	prefixes := map[string]string{}
-	for _, name := range tp.Scope().Names() {
-		cst, ok := tp.Scope().Lookup(name).(*types.Const)
-		if ok && strings.HasSuffix(name, "Prefix") && cst.Val().Kind() == constant.String {
-			prefixes[name] = constant.StringVal(cst.Val())
-		}
+	for fn, ci := range ctors {
+		prefixes[fnShort(fn)] = strings.Trim(ci.first, "\"")
 	}
 	if len(prefixes) < 7 {
-		c.Unk("C14-R2", "prefix-constants", "", "", fmt.Sprintf("anchor lost: %d prefix constants", len(prefixes)))
+		c.Unk("C14-R2", "prefix-constants", "", "", fmt.Sprintf("anchor lost: %d key constructors with a constant prefix", len(prefixes)))
 	}
 	seen := map[string]string{}
 	dup := false
@@ -167,53 +237,32 @@ func runC14(c *Check) {
 		v := prefixes[n]
 		if o, ok := seen[v]; ok || v == "" || strings.Contains(v, "/") {
 			dup = true
-			c.Bad("C14-R2", "prefix ⟂ "+n, "", "", fmt.Sprintf("prefix %q of %s is empty, contains '/', or equals that of %s: records of different kinds would overwrite one another", v, n, o), nil)
+			c.Bad("C14-R2", "prefix ⟂ "+v, "", "", fmt.Sprintf("prefix %q of %s is empty, contains '/', or equals that of %s: records of different kinds would overwrite one another", v, n, o), nil)
 		}
 		seen[v] = n
 	}
 	if !dup {
-		c.OK("C14-R2", "prefixes-pairwise-distinct", "", p.Pos(tp.Scope().Lookup("headerPrefix").Pos()), fmt.Sprintf("%d prefixes, all distinct, non-empty, without '/': %v", len(prefixes), prefixes), true)
+		c.OK("C14-R2", "prefixes-pairwise-distinct", "", "", fmt.Sprintf("%d prefixes, all distinct, non-empty, without '/': %v", len(prefixes), sortedKeys(seen)), true)
 	}
-	// each constructor uses its own prefix
-	wantPrefix := map[string]string{"getHeaderKey": "headerPrefix", "getDataKey": "dataPrefix", "getSignatureKey": "signaturePrefix", "getStateKey": "statePrefix", "getMetaKey": "metaPrefix", "getIndexKey": "indexPrefix", "getHeightKey": "heightPrefix"}
-	ctorPrefix := map[string]string{}
-	for _, ctor := range sortedKeys(wantPrefix) {
-		fn := p.Func(storePkg + "." + ctor)
-		if fn == nil {
-			c.Unk("C14-R2", "ctor ⟂ "+ctor, "", "", "anchor lost: key constructor")
+	// each record kind has its constructor, with a decimal/hex suffix
+	for _, ctor := range sortedKeys(kindLabel) {
+		label := kindLabel[ctor]
+		ci := ctorByLabel[label]
+		if ci == nil {
+			c.Unk("C14-R2", "ctor ⟂ "+label, "", "", "anchor lost: no key constructor builds keys of kind "+ctor)
 			continue
 		}
-		// first element of the fields literal (or the returned constant)
-		var first string
-		var suffix *Term
-		ctx := &Ctx{Fn: fn}
-		for _, b := range fn.Blocks {
-			for _, in := range b.Instrs {
-				switch x := in.(type) {
-				case *ssa.Alloc:
-					st := litStores(x)
-					if v := st["[0]"]; len(v) == 1 {
-						first = TermOf(v[0], ctx).Name
-					}
-					if v := st["[1]"]; len(v) == 1 {
-						suffix = TermOf(v[0], ctx)
-					}
-				case *ssa.Return:
-					if len(x.Results) == 1 {
-						if k, ok := x.Results[0].(*ssa.Const); ok {
-							first = fmt.Sprintf("%q", constant.StringVal(k.Value))
-						}
-					}
-				}
-			}
-		}
-		wantV := fmt.Sprintf("%q", prefixes[wantPrefix[ctor]])
+		suffix := ci.suffix
 		okSuffix := suffix == nil || suffix.IsCall("strconv.FormatUint") || suffix.IsCall("go-header.Hash).String") || suffix.Op == "param"
-		ctorPrefix[ctor] = first
-		if first == wantV && okSuffix {
-			c.OK("C14-R2", "ctor ⟂ "+ctor, fnName(fn), p.Pos(fn.Pos()), "prefix "+first, true)
+		if okSuffix {
+			c.OK("C14-R2", "ctor ⟂ "+label, fnName(ci.fn), p.Pos(ci.fn.Pos()), "prefix "+ci.first, true)
 		} else {
-			c.Bad("C14-R2", "ctor ⟂ "+ctor, fnName(fn), p.Pos(fn.Pos()), fmt.Sprintf("key constructor uses prefix %s (expected %s = %s) or an unexpected suffix", first, wantPrefix[ctor], wantV), nil)
+			c.Bad("C14-R2", "ctor ⟂ "+label, fnName(ci.fn), p.Pos(ci.fn.Pos()), "key constructor of kind "+ci.first+" has an unexpected suffix "+trunc(suffix.String(), 60), nil)
+		}
+	}
+	for fn, ci := range ctors {
+		if _, ok := kindLabel[ci.first]; !ok {
+			c.OK("C14-R2", "ctor ⟂ key-kind "+ci.first, fnName(fn), p.Pos(fn.Pos()), "a key constructor of a kind added after the pinned tree; prefix "+ci.first, true)
 		}
 	}
 	// SetMetadata call sites in all modules
@@ -225,7 +274,7 @@ func runC14(c *Check) {
 	for _, mn := range mods {
 		mp := c.Mod(mn)
 		for _, fn := range mp.Funcs {
-			if gn := genericName(fn.String()); gn != fn.String() && len(mp.GenericReps(gn)) > 0 && mp.GenericReps(gn)[0] != fn {
+			if gn := genericName(fnName(fn)); gn != fnName(fn) && len(mp.GenericReps(gn)) > 0 && mp.GenericReps(gn)[0] != fn {
 				continue
 			}
 			ctx := &Ctx{Fn: fn}
@@ -275,7 +324,7 @@ func runC14(c *Check) {
 			}
 		}
 		val := ArgTerm(o.node, 2)
-		okVal := val.IsCall("store.encodeHeight") && val.Args[0].String() == h
+		okVal := val.Op == "call" && encFnOf(p) != nil && callsStatic(val, encFnOf(p)) && len(val.Args) == 1 && val.Args[0].String() == h
 		if guard && okVal {
 			c.OK("C14-R3", "SetHeight ⟂ only-grows", fn, p.InstrPos(o.node.In), "the height is written only behind height > current (read from the store), with the given height", true)
 		} else {
@@ -288,6 +337,39 @@ func runC14(c *Check) {
 	ruleHeightNotAheadOfDisk(c, p)
 
 	// ---- R4
+	// the height codec: the store package's func(uint64) []byte / func([]byte) (uint64, error) pair
+	var enc, dec *ssa.Function
+	for _, fn := range p.Funcs {
+		pk := fnPkg(fn)
+		if pk == nil || pk.Pkg.Path() != storePkg || fn.Parent() != nil || fn.Signature.Recv() != nil || fn.Blocks == nil {
+			continue
+		}
+		sig := fn.Signature
+		if sig.Params().Len() != 1 {
+			continue
+		}
+		pt := sig.Params().At(0).Type().String()
+		switch {
+		case pt == "uint64" && sig.Results().Len() == 1 && sig.Results().At(0).Type().String() == "[]byte":
+			for n := range callNames(fn) {
+				if strings.HasPrefix(n, "(encoding/binary.") && strings.HasSuffix(n, ").PutUint64") {
+					enc = fn
+				}
+			}
+		case pt == "[]byte" && sig.Results().Len() >= 1 && sig.Results().At(0).Type().String() == "uint64":
+			for n := range callNames(fn) {
+				if strings.HasPrefix(n, "(encoding/binary.") && strings.HasSuffix(n, ").Uint64") {
+					dec = fn
+				}
+			}
+		}
+	}
+	callsFn := func(t *Term, fn *ssa.Function) bool {
+		return fn != nil && t.Contains(func(x *Term) bool {
+			cv, ok := x.V.(*ssa.Call)
+			return ok && x.Op == "call" && cv.Common().StaticCallee() == fn
+		})
+	}
 	codecW := func(v *Term) string {
 		s := v.String()
 		switch {
@@ -295,7 +377,7 @@ func runC14(c *Check) {
 			return "SignedHeader.binary"
 		case strings.Contains(s, "types.Data).MarshalBinary("):
 			return "Data.binary"
-		case strings.Contains(s, "store.encodeHeight("):
+		case callsFn(v, enc):
 			return "height.le64"
 		case strings.Contains(s, "proto.Marshal(") && strings.Contains(s, "types.State).ToProto("):
 			return "State.proto"
@@ -318,7 +400,11 @@ func runC14(c *Check) {
 			for _, u := range *ex.Referrers() {
 				switch x := u.(type) {
 				case *ssa.Call:
-					uses = append(uses, commonName(x.Common()))
+					if dec != nil && x.Common().StaticCallee() == dec {
+						uses = append(uses, "@height-decoder")
+					} else {
+						uses = append(uses, commonName(x.Common()))
+					}
 				case *ssa.ChangeType, *ssa.Convert, *ssa.Return, *ssa.MakeInterface, *ssa.Alloc, *ssa.Store:
 					uses = append(uses, "raw")
 				}
@@ -330,7 +416,7 @@ func runC14(c *Check) {
 				return "SignedHeader.binary"
 			case strings.HasSuffix(u, "types.Data).UnmarshalBinary"):
 				return "Data.binary"
-			case strings.HasSuffix(u, "store.decodeHeight"):
+			case u == "@height-decoder":
 				return "height.le64"
 			case strings.HasSuffix(u, "proto.Unmarshal"):
 				// decoded into pb.State and converted with FromProto
@@ -370,8 +456,8 @@ func runC14(c *Check) {
 			e.r[codecR(o)] = true
 		}
 	}
-	ctors := sortedKeys(table)
-	for _, k := range ctors {
+	tkinds := sortedKeys(table)
+	for _, k := range tkinds {
 		e := table[k]
 		w, r := sortedKeys(e.w), sortedKeys(e.r)
 		inst := "codec ⟂ " + k
@@ -384,9 +470,9 @@ func runC14(c *Check) {
 			c.Bad("C14-R4", inst, "", "", fmt.Sprintf("records of this kind are written as %v but read as %v: reads do not return what was written", w, r), nil)
 		}
 	}
-	if len(ctors) < 7 {
+	if len(tkinds) < 7 {
 		missing := []string{}
-		for k := range wantPrefix {
+		for _, k := range kindLabel {
 			if table[k] == nil {
 				missing = append(missing, k)
 			}
@@ -395,7 +481,6 @@ func runC14(c *Check) {
 		c.Unk("C14-R4", "codec-table", "", "", fmt.Sprintf("anchor lost: key kinds without any datastore operation: %v", missing))
 	}
 	// the height codec itself: encode/decode use the same byte order and width
-	enc, dec := p.Func(storePkg+".encodeHeight"), p.Func(storePkg+".decodeHeight")
 	if enc != nil && dec != nil {
 		es, dsx := callNames(enc), callNames(dec)
 		okE := es["(encoding/binary.littleEndian).PutUint64"] && dsx["(encoding/binary.littleEndian).Uint64"]
@@ -508,7 +593,7 @@ func safeMetaKey(p *Prog, key *Term) (bool, string) {
 							for _, cb := range caller.Blocks {
 								for _, cin := range cb.Instrs {
 									call, ok := cin.(*ssa.Call)
-									if !ok || call.Common().StaticCallee() == nil || genericName(call.Common().StaticCallee().String()) != genericName(fn.String()) {
+									if !ok || call.Common().StaticCallee() == nil || genericName(fnName(call.Common().StaticCallee())) != genericName(fnName(fn)) {
 										continue
 									}
 									for i, prm := range fn.Params {
@@ -540,7 +625,7 @@ func safeMetaKey(p *Prog, key *Term) (bool, string) {
 }
 
 func callersOfGeneric(p *Prog, fn *ssa.Function) []*ssa.Function {
-	gn := genericName(fn.String())
+	gn := genericName(fnName(fn))
 	var out []*ssa.Function
 	for _, f := range p.Funcs {
 		for _, b := range f.Blocks {
@@ -656,4 +741,28 @@ func ruleHeightNotAheadOfDisk(c *Check, p *Prog) {
 	if n == 0 {
 		c.Bad(rule, "Height ⟂ reads-only-the-database", fnName(hfn), p.Pos(hfn.Pos()), fmt.Sprintf("Height reads receiver state %v that nothing in the store package writes", read), nil)
 	}
+}
+
+// encFnOf: the store package's height encoder, func(uint64) []byte over encoding/binary.
+func encFnOf(p *Prog) *ssa.Function {
+	for _, fn := range p.Funcs {
+		pk := fnPkg(fn)
+		if pk == nil || pk.Pkg.Path() != storePkg || fn.Parent() != nil || fn.Signature.Recv() != nil || fn.Blocks == nil {
+			continue
+		}
+		sig := fn.Signature
+		if sig.Params().Len() == 1 && sig.Params().At(0).Type().String() == "uint64" && sig.Results().Len() == 1 && sig.Results().At(0).Type().String() == "[]byte" {
+			for n := range callNames(fn) {
+				if strings.HasPrefix(n, "(encoding/binary.") && strings.HasSuffix(n, ").PutUint64") {
+					return fn
+				}
+			}
+		}
+	}
+	return nil
+}
+
+func callsStatic(t *Term, fn *ssa.Function) bool {
+	cv, ok := t.V.(*ssa.Call)
+	return ok && cv.Common().StaticCallee() == fn
 }
